@@ -739,6 +739,11 @@ def _r2_prior(out, item, case, first):
   """The `seed` of EvaluateAndAddPriorStudy is used: K pairwise different
   seeds (everything else equal) do not all give the same prior study."""
   run = item['run']
+  # position of the first described prior study among the attached ones:
+  # the 'before' steps run (and attach) first, then the 'each_repeat' ones
+  order = sorted(range(len(run['prior_studies'])), key=lambda j: (
+      run['prior_studies'][j].get('where') == 'each_repeat', j))
+  pos = order.index(0)
   priors = []
   for i, s in enumerate(case['prior_seeds']):
     if i == 0:
@@ -747,7 +752,8 @@ def _r2_prior(out, item, case, first):
       ps = [dict(run['prior_studies'][0], seed=s)] + run['prior_studies'][1:]
       o = lib.execute(dict(item, run=dict(run, prior_studies=ps),
                            env=case['envs']['a']))
-    priors.append({'trials': o['prior'][0]['trials'] if o['prior'] else [],
+    priors.append({'trials': o['prior'][pos]['trials']
+                             if len(o['prior']) > pos else [],
                    'error': None})
   if len(priors[0]['trials']) < 8:
     out.cls('r2_prior_not_judged_short')
